@@ -50,3 +50,54 @@ induction('C15/norm-keeps-tasks',
 induction('C15/norm-idempotent',
           "implies(immutable($), norm($) == $)", "implies(imm_list($), norm_list($) == $)", "implies(imm_ents($), norm_ents($) == $)",
           ('C15', 'C07'), 'normalising an already normalised value changes nothing (pickle copies and reconstructed tasks get the same parameters)')
+
+# ---- C09: deserialising a serialised value gives the value back (tasks by their reconstruction rt_inst)
+R.func('rt_inst', ['Inst'], 'Inst')       # the task object that deserialize_task rebuilds from serialize_task's document
+R.recfunc('rtmap', {'v': 'PV'}, 'PV', "ite(is_PTask(v), PTask(rt_inst(inst(v))), ite(is_PTuple(v), PTuple(rtmap_list(titems(v))), ite(is_PFrozen(v), PFrozen(rtmap_ents(fents(v))), v)))")
+R.recfunc('rtmap_list', {'l': 'PL'}, 'PL', "ite(is_LNil(l), l, LCons(rtmap(head(l)), rtmap_list(tail(l))))")
+R.recfunc('rtmap_ents', {'e': 'PE'}, 'PE', "ite(is_ENil(e), e, ECons(ekey(e), rtmap(evalue(e)), rtmap_ents(erest(e))))")
+# well-formed, reserved-free immutable values: enum members carry their class's mixin; no dict parameter uses a marker key
+R.recfunc('wfv', {'v': 'PV'}, 'Bool', "(is_PEnum(v) and (emix(v) == enum_mix(ecls(v)))) or is_PNone(v) or is_PBool(v) or is_PInt(v) or is_PFloat(v) or is_PStr(v) or is_PTask(v) "
+          "or (is_PTuple(v) and wfv_list(titems(v))) or (is_PFrozen(v) and wfv_ents(fents(v)) and (not ents_has(fents(v), '_is_task')) and (not ents_has(fents(v), '_is_enum')))")
+R.recfunc('wfv_list', {'l': 'PL'}, 'Bool', "is_LNil(l) or (wfv(head(l)) and wfv_list(tail(l)))")
+R.recfunc('wfv_ents', {'e': 'PE'}, 'Bool', "is_ENil(e) or (is_PStr(ekey(e)) and wfv(evalue(e)) and wfv_ents(erest(e)))")
+RT_AX = [C("forall('Inst', lambda i: marked(ser_task_pv(i), '_is_task') and (deser_task_pv(ser_task_pv(i)) == rt_inst(i)))",
+           'SPEC of the task document (serialize_task/deserialize_task, decided by the bounded stand-in): it carries the _is_task marker and reconstructs to rt_inst'),
+         C("forall('Cls', lambda c: fullname_cls(cls_fullname(c)) == c)", 'A-import: an enum class is importable under the module path and qualified name recorded for it')]
+R.lemma('C09/round-trip/step-PV', vars={'v': 'PV'},
+    hyps=RT_AX + [C("implies(is_PTuple(v), implies(wfv_list(titems(v)), norm_list(deser_list(ser_list(titems(v)))) == rtmap_list(titems(v))))", 'IH tuple items'),
+                  C("forall('PE','Str', lambda x, k: ents_has(ser_ents(x), k) == ents_has(x, k))", 'THEOREM C09/keys-kept (proved by its own induction step)'),
+                  C("implies(is_PFrozen(v), implies(wfv_ents(fents(v)), norm_ents(deser_ents(ser_ents(fents(v)))) == rtmap_ents(fents(v))))", 'IH frozendict entries')],
+    goal="implies(wfv(v), norm(deser(ser(v))) == rtmap(v))", serves=('C09',), note='constructing the task again normalises lists back to tuples and dicts to frozendicts')
+R.lemma('C09/round-trip/step-PL', vars={'l': 'PL'},
+    hyps=RT_AX + [C("implies(is_LCons(l), implies(wfv(head(l)), norm(deser(ser(head(l)))) == rtmap(head(l))) and implies(wfv_list(tail(l)), norm_list(deser_list(ser_list(tail(l)))) == rtmap_list(tail(l))))", 'IH head and tail')],
+    goal="implies(wfv_list(l), norm_list(deser_list(ser_list(l))) == rtmap_list(l))", serves=('C09',))
+R.lemma('C09/keys-kept/step-PE', vars={'e': 'PE', 'k': 'Str'},
+    hyps=[C("implies(is_ECons(e), ents_has(ser_ents(erest(e)), k) == ents_has(erest(e), k))", 'IH rest')],
+    goal="ents_has(ser_ents(e), k) == ents_has(e, k)", serves=('C09', 'C07'), note='serialising a dict keeps exactly its keys')
+KEYS_KEPT = C("forall('PE','Str', lambda x, k: ents_has(ser_ents(x), k) == ents_has(x, k))", 'THEOREM C09/keys-kept (proved by its own induction step)')
+R.lemma('C09/round-trip/step-PE', vars={'e': 'PE'},
+    hyps=RT_AX + [KEYS_KEPT, C("implies(is_ECons(e), implies(wfv(evalue(e)), norm(deser(ser(evalue(e)))) == rtmap(evalue(e))) and implies(wfv_ents(erest(e)), norm_ents(deser_ents(ser_ents(erest(e)))) == rtmap_ents(erest(e))))", 'IH value and rest')],
+    goal="implies(wfv_ents(e), norm_ents(deser_ents(ser_ents(e))) == rtmap_ents(e))", serves=('C09',))
+
+# ---- C07: the serialised forms of a dict parameter and of a nested task/enum never coincide -- EXPECTED TO FAIL (known finding K-reserved)
+R.lemma('C07/dict-never-reads-as-task', vars={'v': 'PV'},
+    hyps=[C("immutable(v)", 'a normalised parameter value'), C("is_PFrozen(v)", 'that is a dict')],
+    goal="(not marked(ser(v), '_is_task')) and (not marked(ser(v), '_is_enum'))", serves=('C07', 'C09'),
+    note='without excluding the marker keys from dict parameters this is false: {"_is_task": True, ...} serialises like a task')
+
+# ---- C07 (ii): distinct parameter trees have distinct serialisations -- a corollary of the round trip
+R.lemma('C07/serialisation-injective', vars={'a': 'PV', 'b': 'PV'},
+    hyps=[C("forall('PV', lambda v: implies(wfv(v), norm(deser(ser(v))) == rtmap(v)))", 'THEOREM C09/round-trip (proved by its induction steps)'),
+          C("wfv(a) and wfv(b)", 'well-formed, reserved-free, normalised parameter values'), C("ser(a) == ser(b)", 'equal serialisations')],
+    goal="rtmap(a) == rtmap(b)", serves=('C07',),
+    note='equal documents => equal parameter trees, nested tasks compared through their reconstruction (equal by value); with A-sha1 and json.dumps injective this gives distinct keys')
+# ---- C07 (iv): every key of a module-level task type is accepted by validate_file_path_key's character test
+KEY_HYPS = [C("is_identifier(q)", 'qualified name of a module-level class: an identifier'), C("is_hex40(h)", 'sha1 hexdigest'),
+            C("(prefix == 'pickle__') or (prefix == '')", 'KEY_PREFIX of the provided caches')]
+for _nm, _bad in (('dot', "'.'"), ('slash', "'/'"), ('backslash', "'\\\\'")):
+    R.lemma(f'C07/key-accepted/no-{_nm}', vars={'q': 'Str', 'h': 'Str', 'prefix': 'Str'}, hyps=KEY_HYPS,
+        goal=f"not contains(concat(prefix, q, '__', h), {_bad})", serves=('C07',),
+        note='every key of a module-level task type passes validate_file_path_key\'s character test (os.path.sep is / or \\, altsep is None or /); the resolved-parent test is C18\'s')
+R.lemma('C07/key-accepted/non-empty', vars={'q': 'Str', 'h': 'Str', 'prefix': 'Str'}, hyps=KEY_HYPS,
+    goal="concat(prefix, q, '__', h) != ''", serves=('C07',))
